@@ -367,7 +367,29 @@ pub fn error_exit_datas() -> Vec<Value> {
     vec![json!({"a": 4, "xs": [1, 2, 3], "code": "777", "serial": "12a"})]
 }
 
+/// Tracer alphabet: every operator with each operand wrapped in a uniquely marked `log` - each isolated
+/// outcome is judged against the reference (value and the exact lines: one line per evaluated log), and
+/// every history must reproduce it.
+pub fn tracer_rules() -> Vec<Value> {
+    let mut r = Vec::new();
+    for k in crate::refmodel::OPS {
+        for n in 1..=3usize {
+            if !crate::refmodel::arity_ok(k, n) {
+                continue;
+            }
+            let args: Vec<Value> = crate::spaces::c03::benign(k, n).iter().enumerate().map(|(i, x)| json!({"if": [{"log": format!("M{}", i)}, x, "unreachable"]})).collect();
+            r.push(json!({ k: args }));
+        }
+    }
+    r.push(json!({"<": [1, {"log": 2}, 3]}));
+    r.push(json!({"<=": [0, {"log": {"var": "a"}}, 100]}));
+    r.push(json!({">=": [9, {"+": [{"log": 4}, 1]}, 7]}));
+    r.push(json!({"<": [5, {"log": 2}, 3]}));
+    r
+}
+
 pub fn run(ctx: &mut Ctx) {
+    run_alphabet(ctx, "tracer", tracer_rules(), error_exit_datas(), 30, 1);
     run_alphabet(ctx, "error-exit", error_exit_rules(), error_exit_datas(), 40, 1);
     run_alphabet(ctx, "capacity", capacity_rules(), capacity_datas(), 13, 1);
     run_alphabet(ctx, "twins", rules(), twin_datas(), 40, 2);
